@@ -167,6 +167,8 @@ func (xaManager *XAResourceManager) BranchCommit(ctx context.Context, branchReso
 		return branch.BranchStatusPhasetwoRollbackFailedUnretryable, err
 	}
 
+	defer connectionProxyXA.closeIfOpenedForPhaseTwo()
+
 	if err := connectionProxyXA.XaCommit(ctx, xaID); err != nil {
 		log.Errorf("commit xa, resourceId: %s, err %v", branchResource.ResourceId, err)
 		setBranchStatus(xaID.String(), branch.BranchStatusPhasetwoCommitted)
@@ -183,6 +185,8 @@ func (xaManager *XAResourceManager) BranchRollback(ctx context.Context, branchRe
 	if err != nil {
 		return branch.BranchStatusPhasetwoRollbackFailedUnretryable, err
 	}
+
+	defer connectionProxyXA.closeIfOpenedForPhaseTwo()
 
 	if err = connectionProxyXA.XaRollbackByBranchId(ctx, xaID); err != nil {
 		log.Errorf("rollback xa, resourceId: %s, err %v", branchResource.ResourceId, err)
